@@ -107,6 +107,8 @@ func TestVerifC20Transport(t *testing.T) {
 		o.Op(c20tModel, "case", "ok")
 
 		lt := NewMultiplexTransport(c20tInfo(ids[c], netL), NodeKey{PrivKey: keys[l]}, conn.DefaulKAIConnConfig())
+		// generous limits: on a loaded machine a timeout must not masquerade as an authentication failure
+		lt.handshakeTimeout, lt.dialTimeout, lt.filterTimeout = 30*time.Second, 30*time.Second, 30*time.Second
 		la, err := NewNetAddressString(IDAddressString(ids[l], "127.0.0.1:0"))
 		if err != nil {
 			t.Fatal(err)
@@ -124,6 +126,7 @@ func TestVerifC20Transport(t *testing.T) {
 			accc <- acc{p, err}
 		}()
 		dt := NewMultiplexTransport(c20tInfo(ids[dc], netD), NodeKey{PrivKey: keys[d]}, conn.DefaulKAIConnConfig())
+		dt.handshakeTimeout, dt.dialTimeout, dt.filterTimeout = 30*time.Second, 30*time.Second, 30*time.Second
 		target := NewNetAddress(ids[tg], lt.listener.Addr())
 		ctx := fmt.Sprintf("seed=%d case=%d %s: dialled id #%d at a listener holding key #%d reporting id #%d; dialer holds key #%d reports id #%d; networks %s/%s",
 			seed, i, kind, tg, l, c, d, dc, netL, netD)
@@ -137,7 +140,7 @@ func TestVerifC20Transport(t *testing.T) {
 		}()
 		select {
 		case <-done:
-		case <-time.After(20 * time.Second):
+		case <-time.After(90 * time.Second):
 			o.Viol("transport-dial-hangs", ctx)
 			_ = lt.Close()
 			continue
@@ -182,7 +185,7 @@ func TestVerifC20Transport(t *testing.T) {
 				_ = a.p.Stop()
 				a.p.CloseConn()
 			}
-		case <-time.After(20 * time.Second):
+		case <-time.After(90 * time.Second):
 			o.Viol("transport-accept-hangs", ctx)
 		}
 		if dp != nil {
